@@ -58,7 +58,10 @@ def generate(rng, tier):
                 continue
             cm = {'c': b'/*' + note + b'*/', 'hash': b'#' + note + b'\n', 'slashes': b'//' + note + b'\n'}[style]
             for item, opt in ((b'i = 5', b'i'), (b'il = {3, 4}', b'il'), (b's = "v"', b's'), (b'sec { ' + cm + b' a = 2 }', b'sec|a'),
-                              (b'il = {3, 4,}', b'il'), (b'il += {5}', b'il'), (b'il = 6', b'il'), (b'b = on', b'b'), (b'f = 1.5', b'f')):
+                              (b'il = {3, 4,}', b'il'), (b'il += {5}', b'il'), (b'il = 6', b'il'), (b'b = on', b'b'), (b'f = 1.5', b'f'),
+                              # further comments INSIDE the item do not replace the annotation taken from the one in front
+                              (b'i = /* inner */ 5', b'i'), (b'il = {3, /* in */ 4}', b'il'), (b'il = { # x\n 3 }', b'il'),
+                              (b's /* mid */ = "v"', b's')):
                 n += 1
                 text = (cm + b' ' + item) if opt != b'sec|a' else item
                 if n % 3 == 0:
